@@ -198,7 +198,12 @@ func genHistory(r *common.Rand, nops int) histCase {
 		addrs = append(addrs, h, "https://"+h+"/", "http://"+h+"/v1/")
 	}
 	hc := histCase{Kind: "H", SubDir: r.Intn(3) == 0}
-	if r.Intn(7) != 0 {
+	if r.Intn(40) == 0 {
+		// valid JSON documents that are not objects
+		t := common.Pick(r, []string{"null", "null\n", " null", "[]", "0", "\"s\"", "true", "[{}]"})
+		hc.Init = &t
+		hc.Mode = 0o600
+	} else if r.Intn(7) != 0 {
 		t := genDoc(r, addrs).text(r)
 		hc.Init = &t
 		hc.Mode = common.Pick(r, []uint32{0o644, 0o600, 0o640, 0o666})
